@@ -265,6 +265,7 @@ func runOne(rec *mon.Recorder, c int) bool {
 		}(w)
 	}
 	var rwg sync.WaitGroup
+	var abandoned int64
 	for r := 0; r < readers; r++ {
 		rwg.Add(1)
 		rrng := rec.Rand(fmt.Sprintf("c13-r%d", r), c)
@@ -308,6 +309,17 @@ func runOne(rec *mon.Recorder, c int) bool {
 					q := cfg.Vec(rrng)
 					k := uint(1 + rrng.Intn(nIds+2))
 					t0 := now()
+					if rrng.Intn(4) == 0 {
+						// the caller goes away while the search runs (a client that hangs up, a deadline): a search that
+						// was given up is not judged, one that was finished is judged like any other
+						res, gaveUp, err := hx.SearchAbandoned(idx, q, k, time.Duration(rrng.Intn(30))*time.Microsecond)
+						t1 := now()
+						atomic.AddInt64(&abandoned, 1)
+						if !gaveUp {
+							ls = append(ls, searchRec{t0, t1, q, k, res, err})
+						}
+						break
+					}
 					res, err := hx.Search(idx, q, k)
 					t1 := now()
 					ls = append(ls, searchRec{t0, t1, q, k, res, err})
@@ -333,6 +345,7 @@ func runOne(rec *mon.Recorder, c int) bool {
 		os.Exit(0) // stuck goroutines cannot be reclaimed
 	}
 
+	rec.Count("searches_abandoned_by_their_caller", atomic.LoadInt64(&abandoned))
 	// final sequential Gets become part of the history: they pin the final state
 	tEnd := now()
 	live := hx.Ref{}
@@ -696,6 +709,7 @@ func bulk(rec *mon.Recorder, c int) {
 	}
 	// readers
 	var rwg sync.WaitGroup
+	var abandoned int64
 	for g := 0; g < 3; g++ {
 		rwg.Add(1)
 		go func(g int) {
@@ -707,12 +721,33 @@ func bulk(rec *mon.Recorder, c int) {
 				if g == 0 {
 					hx.Search(idx, cfg.Vec(r), 5)
 				}
+				if g == 1 {
+					// a search over thousands of vertices whose caller goes away in the middle of it
+					hx.SearchAbandoned(idx, cfg.Vec(r), 50, time.Duration(r.Intn(200))*time.Microsecond)
+					atomic.AddInt64(&abandoned, 1)
+				}
 			}
 		}(g)
 	}
-	wg.Wait()
-	atomic.StoreInt32(&stop, 1)
-	rwg.Wait()
+	finished := make(chan struct{})
+	go func() { wg.Wait(); atomic.StoreInt32(&stop, 1); rwg.Wait(); close(finished) }()
+	select {
+	case <-finished:
+	case <-time.After(300 * time.Second):
+		// wall clock is only the trigger; the verdict is structural (the same goroutines parked on index locks in two
+		// dumps taken apart)
+		d1 := lockWaiters()
+		time.Sleep(2 * time.Second)
+		d2 := lockWaiters()
+		if len(d1) > 0 && fmt.Sprint(d1) == fmt.Sprint(d2) {
+			rec.Violation("bulk:deadlock:goroutines-parked-on-index-locks", fmt.Sprintf("%s: %d goroutines parked on index locks in two dumps 2 s apart: %v", desc, len(d1), d1), nil)
+		} else {
+			rec.Inconclusive("bulk run did not finish in 300 s but no stable lock wait-set: " + desc)
+		}
+		rec.Close()
+		os.Exit(0) // stuck goroutines cannot be reclaimed
+	}
+	rec.Count("searches_abandoned_by_their_caller", atomic.LoadInt64(&abandoned))
 	// at rest
 	want := 0
 	for i := 0; i < n; i++ {
